@@ -340,11 +340,10 @@ def check(ctx):
                 env[l] = n
             for v_ in Vs:
                 env[('len', v_)] = n
-            reach = reach_under(b, tb_, env)
             outs = []
-            for bi, si, t in ret_defs(tb_):
-                if bi in reach:
-                    outs.append(classify(strip_sites(detry(t))))
+            # the values returned under this valuation, built from the definitions on its paths only
+            for bi, si, t in ret_values_under(b, tb_, env):
+                outs.append(classify(strip_sites(detry(t))))
             rows[n] = sorted(set(outs))
         expect = {0: [none_kind], 1: ['first'], 2: ['Err:AmbiguousPredicate'], 3: ['Err:AmbiguousPredicate']}
         if rows == expect:
@@ -352,6 +351,14 @@ def check(ctx):
         else:
             ctx.fail('C15.5', ctx.site(b), '%s over match count is %s, expected %s' % (name, rows, expect), key='C15.5|single|' + name)
     def classify(t):
+        fr = m_call(t, name='from_residual')
+        if fr is not None:
+            # `?` on an explicitly built Err(e): the error e leaves the function
+            for x in walk(t):
+                if isinstance(x, tuple) and x and x[0] == 'agg' and x[1].endswith('EnvelopeError'):
+                    return 'Err:' + x[2]
+        if t[0] == 'vfield' and t[2] in ('Some', 'Ok') and t[3] == '0' and isinstance(t[1], tuple) and t[1] and t[1][0] == 'agg' and t[1][2] == t[2] and t[1][3]:
+            return classify(t[1][3][0])
         if t[0] == 'agg' and t[2] == 'Err':
             for x in walk(t):
                 if isinstance(x, tuple) and x and x[0] == 'agg' and x[1].endswith('EnvelopeError'):
@@ -359,6 +366,10 @@ def check(ctx):
             return 'Err:?'
         if t[0] == 'agg' and t[2] == 'Ok':
             inner = t[3][0]
+            mp = m_call(inner, name='map')
+            if mp is not None and len(mp) == 2 and strip_generics(inner[1]) == 'core::option::Option::map':
+                # Option::map(None, f) == None; Option::map(Some(v), f) reads v
+                inner = mp[0]
             if inner[0] == 'agg' and inner[2] == 'None':
                 return 'None'
             if inner[0] == 'agg' and inner[2] == 'Some':
